@@ -14,4 +14,5 @@ import MoreExec.Props.C02Code
 #print axioms MoreExec.MeFuture.C02_code_callback_pass
 #print axioms MoreExec.MeFuture.C02_code_cancel_whole
 #print axioms MoreExec.MeFuture.C02_code_set_whole
+#print axioms MoreExec.MeFuture.C02_code_add_whole
 #print axioms MoreExec.MeFuture.C02_code_no_overrides
